@@ -165,12 +165,24 @@ def run(ctx):
             fam = families.mapped(rng, err="raise")
             sub = fam["spec"]["nodes"][0]
             bcast = [k for k in fam["inputs"] if k not in fam["over"]]
+            if not bcast:
+                # always have a broadcast input next to the mapped ones
+                ns0 = next(ns for ns in sub["prog"]["nodes"] if ns["k"] == "fn")
+                ns0["params"].append({"n": "bk"})
+                fam["inputs"]["bk"] = "run:bk"
+                bcast = ["bk"]
+            if i % 16 == 7:
+                for k in fam["over"]:
+                    if not fam["inputs"][k]:
+                        fam["inputs"][k] = [f"{k}:0", f"{k}:1"]
             provided = dict(fam["inputs"])
             if bcast:
                 b = rng.choice(bcast)
                 sub["prog"].setdefault("bind", {})[b] = f"bound:{b}"
-                if rng.random() < 0.4:
+                if i % 16 != 7 and rng.random() < 0.5:
                     del provided[b]
+                else:
+                    ctx.obs["mapped_inner_binding_overridden"] += 1
             ok = False
             for runner in ("sync", "async"):
                 out = check_case(ctx, fam["spec"], provided, None, runner, "mapped")
